@@ -1129,6 +1129,7 @@ impl Recorder {
             _ => String::new(),
         };
         json!({"kind": o.kind, "len": o.cands.len(), "rsel": o.sel, "text": chars(&o.aux), "shown": chars(&shown),
+               "c0u": chars(&uncurl(&o.cands.get(0).cloned().unwrap_or_default())),
                "pre0": chars(&o.pre.get(0).cloned().flatten().unwrap_or_default()),
                "readable": o.pre.iter().all(|p| p.is_some()), "ku": o.cands.iter().any(|c| known_unencodable(c)), "ongoing": o.ongoing, "ms": o.us / 1000,
                "panic": o.panic.clone().unwrap_or_default()})
@@ -1275,9 +1276,27 @@ impl Recorder {
                                 seq.push((other, 0));
                             }
                             seq.push((*code, *m1));
+                            // (a part of the pairs: the first press is taken back before the second - the same key under
+                            //  another plane after a correction; u16::MAX stands for the backspace)
+                            if (i1 * 5 + i2 + *code as usize) % 4 == 0 {
+                                seq.push((u16::MAX, 0));
+                            }
                             seq.push((*code, *m2));
                             let mut dead = false;
                             for (c, m) in seq {
+                                if c == u16::MAX {
+                                    let o = ctx.backspace(false);
+                                    let mut e = json!({"ev": "bs", "ctrl": false});
+                                    for (k, v) in Self::ret_fields(&o).as_object().unwrap() {
+                                        e[k] = v.clone();
+                                    }
+                                    self.emit(e);
+                                    if o.kind == "panic" {
+                                        dead = true;
+                                        break;
+                                    }
+                                    continue;
+                                }
                                 let o = ctx.key(c, m, 0);
                                 let mut e = json!({"ev": "key", "code": c, "mod": m, "sel": 0});
                                 for (k, v) in Self::ret_fields(&o).as_object().unwrap() {
